@@ -249,3 +249,47 @@ func GreedySegs(levels []uint8) []Seg {
 	}
 	return segs
 }
+
+// RandSegs draws a seeded random legal segmentation of levels: RLE runs of any
+// length >= 1 over constant stretches (occasionally with a non-minimal
+// header), bit-packed runs of 1..4 groups and occasionally 60..209 groups.
+func RandSegs(seed uint64, levels []uint8) []Seg {
+	s := seed*2862933555777941757 + 3037000493
+	next := func(n int) int {
+		s = s*6364136223846793005 + 1442695040888963407
+		return int((s >> 33) % uint64(n))
+	}
+	var segs []Seg
+	pos := 0
+	for pos < len(levels) {
+		rem := len(levels) - pos
+		c := 1
+		for pos+c < len(levels) && levels[pos+c] == levels[pos] {
+			c++
+		}
+		if next(2) == 0 {
+			n := 1 + next(c)
+			if next(3) == 0 {
+				n = c
+			}
+			pad := 0
+			if next(17) == 0 {
+				pad = 1
+			}
+			segs = append(segs, Seg{RLE: true, N: n, HdrPad: pad})
+			pos += n
+		} else {
+			g := 1 + next(4)
+			if next(6) == 0 {
+				g = 60 + next(150)
+			}
+			n := 8 * g
+			if n >= rem {
+				n = rem
+			}
+			segs = append(segs, Seg{RLE: false, N: n})
+			pos += n
+		}
+	}
+	return segs
+}
